@@ -4,6 +4,7 @@ import (
 	"fmt"
 	"go/token"
 	"go/types"
+	"sort"
 	"strings"
 
 	"dtnverif/core"
@@ -30,10 +31,13 @@ func C16(p *core.Program, r *core.Report) {
 	isActive := p.Func(claPkg, "convergenceElem", "isActive")
 	okIA := false
 	for _, rv := range core.ReturnValues(isActive, 0) {
-		if b, ok := rv.V.(*ssa.BinOp); ok && b.Op == token.LSS {
-			if z, isC := core.ConstInt(b.Y); isC && z == 0 {
-				if c, ok := b.X.(*ssa.Call); ok && core.NameIs(core.CalleeName(c), "sync/atomic.LoadInt32") && isTTLAddr(core.Arg(c, 0)) {
-					okIA = true
+		if b, ok := rv.V.(*ssa.BinOp); ok {
+			// ttl < 0, or 0 > ttl
+			if big, small, strict, isOrd := core.Greater(b); isOrd && strict {
+				if z, isC := core.ConstInt(big); isC && z == 0 {
+					if c, ok := small.(*ssa.Call); ok && core.NameIs(core.CalleeName(c), "sync/atomic.LoadInt32") && isTTLAddr(core.Arg(c, 0)) {
+						okIA = true
+					}
 				}
 			}
 		}
@@ -490,6 +494,7 @@ func C16(p *core.Program, r *core.Report) {
 
 	checkRegistryKeys(p, r)
 	checkReportChannelNeverClosed(p, r)
+	checkLockOrder(p, r, claPkg, mtcpPkg, bbcPkg, "pkg/cla/tcpclv4", utilsPkg, "pkg/cla/tcpclv4/internal/stages", agentPkg, routingPkg, storagePkg, discPkg, bp7)
 	nWait := 0
 	for _, rel := range []string{claPkg, mtcpPkg, bbcPkg, "pkg/cla/tcpclv4", utilsPkg, "pkg/cla/tcpclv4/internal/stages", agentPkg, routingPkg, discPkg} {
 		nWait += checkNoWaitUnderSignallersLock(p, r, rel)
@@ -1015,4 +1020,152 @@ func checkReportChannelNeverClosed(p *core.Program, r *core.Report) {
 	r.Count("element sends into the Manager's report channel", nSend)
 	mh := p.Func(claPkg, "Manager", "handler")
 	r.Check(nClose == 0, "closing/"+fname(mh)+"/report-channel-never-closed", "the channel the adapters' handlers report into is never closed (an element started by a late registration may still send on it after the shutdown)", p.Pos(mh.Pos()), "", "closed at "+where+": an element's handler that forwards a status afterwards panics with 'send on closed channel'")
+}
+
+// checkLockOrder: two mutexes taken in opposite orders by two goroutines deadlock. Per function the must-lockset gives
+// the mutexes held at each Lock call and at each static call; a callee contributes the mutexes it (transitively) may
+// acquire. The edges held -> acquired over all functions of the given packages must be acyclic. Mutexes are named by
+// owner type and field, so two instances of one type are one node; self-edges (another instance of the same type's
+// lock) are not reported.
+func checkLockOrder(p *core.Program, r *core.Report, pkgs ...string) int {
+	want := map[*ssa.Package]bool{}
+	for _, rel := range pkgs {
+		want[p.Pkg(rel)] = true
+	}
+	isAcquire := func(c ssa.CallInstruction) (string, bool) {
+		switch core.CalleeName(c) {
+		case "sync.Mutex.Lock", "sync.RWMutex.Lock", "sync.RWMutex.RLock":
+			k := core.MutexKey(core.CallRecv(c))
+			return k, k != "" && !strings.HasPrefix(k, "local.")
+		}
+		return "", false
+	}
+	// callees of a call instruction: the static one, or what the VTA call graph resolves an interface call to
+	cg := p.CallGraph()
+	calleesOf := func(f *ssa.Function, c ssa.CallInstruction) []*ssa.Function {
+		if sc := c.Common().StaticCallee(); sc != nil {
+			return []*ssa.Function{sc}
+		}
+		var out []*ssa.Function
+		if n := cg.Nodes[f]; n != nil {
+			for _, e := range n.Out {
+				if e.Site == c && e.Callee != nil && e.Callee.Func != nil && core.IsRepo(e.Callee.Func) {
+					out = append(out, e.Callee.Func)
+				}
+			}
+		}
+		if len(out) > 8 {
+			return nil // unresolved (too many candidates): not followed
+		}
+		return out
+	}
+	memo := map[*ssa.Function]map[string]bool{}
+	var acq func(f *ssa.Function, depth int) map[string]bool
+	acq = func(f *ssa.Function, depth int) map[string]bool {
+		if m, ok := memo[f]; ok {
+			return m
+		}
+		m := map[string]bool{}
+		memo[f] = m
+		if f == nil || f.Blocks == nil || !core.IsRepo(f) || depth > 8 {
+			return m
+		}
+		core.EachInstr(f, func(in ssa.Instruction) {
+			c, ok := in.(ssa.CallInstruction)
+			if !ok {
+				return
+			}
+			if _, isGo := in.(*ssa.Go); isGo {
+				return
+			}
+			if k, ok := isAcquire(c); ok {
+				m[k] = true
+				return
+			}
+			for _, callee := range calleesOf(f, c) {
+				for k := range acq(callee, depth+1) {
+					m[k] = true
+				}
+			}
+		})
+		return m
+	}
+	type edge struct{ from, to string }
+	edges := map[edge]string{}
+	for _, fn := range p.RepoFuncs() {
+		if !want[fn.Pkg] || fn.Blocks == nil {
+			continue
+		}
+		var ls *core.LockSets
+		core.EachInstr(fn, func(in ssa.Instruction) {
+			c, ok := in.(ssa.CallInstruction)
+			if !ok {
+				return
+			}
+			if _, isGo := in.(*ssa.Go); isGo {
+				return
+			}
+			if _, isDefer := in.(*ssa.Defer); isDefer {
+				return
+			}
+			var got map[string]bool
+			if k, ok := isAcquire(c); ok {
+				got = map[string]bool{k: true}
+			} else {
+				got = map[string]bool{}
+				for _, callee := range calleesOf(fn, c) {
+					if core.IsRepo(callee) {
+						for k := range acq(callee, 0) {
+							got[k] = true
+						}
+					}
+				}
+			}
+			if len(got) == 0 {
+				return
+			}
+			if ls == nil {
+				ls = core.ComputeLockSets(fn)
+			}
+			for _, h := range ls.At[in] {
+				if strings.HasPrefix(h.Mutex, "local.") {
+					continue
+				}
+				for k := range got {
+					if k != h.Mutex {
+						if _, seen := edges[edge{h.Mutex, k}]; !seen {
+							edges[edge{h.Mutex, k}] = p.Pos(in.Pos()) + " in " + fname(fn)
+						}
+					}
+				}
+			}
+		})
+	}
+	// cycles
+	adj := map[string][]string{}
+	for e := range edges {
+		adj[e.from] = append(adj[e.from], e.to)
+	}
+	var cyc []string
+	for e, at := range edges {
+		// is e.from reachable from e.to?
+		seen := map[string]bool{}
+		work := []string{e.to}
+		for len(work) > 0 {
+			x := work[len(work)-1]
+			work = work[:len(work)-1]
+			if seen[x] {
+				continue
+			}
+			seen[x] = true
+			work = append(work, adj[x]...)
+		}
+		if seen[e.from] {
+			cyc = append(cyc, e.from+" -> "+e.to+" ("+at+")")
+		}
+	}
+	sort.Strings(cyc)
+	r.Analysed["lock_order_edges"] = len(edges)
+	r.Check(len(cyc) == 0, "lock-order/acyclic", "the order in which the mutexes of the daemon are taken while another one is held is acyclic (held -> acquired, through static calls)", "", fmt.Sprintf("%d ordered pairs", len(edges)), "cycle through: "+strings.Join(cyc, "; "))
+	return len(edges)
 }
